@@ -17,6 +17,11 @@ if [ ! -f "$OUT/trust.p12" ] || [ /verif/fixtures/keys/root.crt -nt "$OUT/trust.
     -keystore "$OUT/trust.p12" -storetype PKCS12 -storepass changeit >/dev/null 2>&1
   keytool -importcert -noprompt -alias fixturetsa -file /verif/fixtures/keys/tsa.crt \
     -keystore "$OUT/trust.p12" -storetype PKCS12 -storepass changeit >/dev/null 2>&1 || true
+  # jarsigner -strict also wants every signer to be an alias of the given keystore
+  for k in rsaA rsaB p256A p256B p384 p521; do
+    keytool -importcert -noprompt -alias "leaf-$k" -file "/verif/fixtures/keys/$k.leaf.crt" \
+      -keystore "$OUT/trust.p12" -storetype PKCS12 -storepass changeit >/dev/null 2>&1
+  done
 fi
 # The JDK's deployment POLICY (not the JAR specification) refuses SHA-1 digests in
 # signed JARs since 17.0.3; the oracle judges conformance, so that policy entry is
